@@ -22,6 +22,7 @@ import subprocess
 import vcheck
 from vcheck import coq_list
 from checks import c10tq
+from checks import c10sel
 
 VERIF = vcheck.VERIF
 CODE = {1: "statement does not lex (unterminated literal/comment or stray byte)",
@@ -195,6 +196,7 @@ def run_correspondence(ck, known):
     ck.obligation("every site has a baseline statement", nbad_base == 0, "%d cases without baseline" % nbad_base)
     run_tree_tie(ck, list(by_id.values()), "gen+corpus")
     c10tq.run(ck, tq_pairs, "gen+corpus", describe)
+    c10sel.run(ck, list(by_id.values()), "gen+corpus")
 
     # 8 = the statement for the HARMLESS marker does not lex: a concrete failing request as well (the case's site with the marker)
     mism = sorted(i for i, v in verd_all.items() if v in (7, 10))
